@@ -13,6 +13,7 @@ EXPLANATION = (
     "by the full semantic coordinate and a different content under the same coordinate is rejected; (R5) the three "
     "snapshot-store export validators keep every rejection live and their digest comparisons gate acceptance. "
     "Agreement with a reference map over operation histories and re-import equality are NOT decided."
+    " Round 2 (R5): in both self-contained payload validators each embedded payload's bytes are hashed and compared with that payload's own declared digest, in a function that does not test the record posture."
 )
 ASSUMPTIONS = ["BLAKE3 collision resistance", "rename is atomic on the host file system"]
 FLOOR = 40
